@@ -60,12 +60,21 @@ def gen_spec(rng, tier="quick", for_crash=False):
         else:
             tod = rng.choice([0, 0, 1, 43200000, DAY - 1, rng.randint(0, DAY - 1)])
             ts = [to_ms(d) + (tod if k == len(ds) - 1 else rng.choice([0, rng.randint(0, DAY - 1)])) for k, d in enumerate(ds)]
+    micro = None
+    if kind == "datetime" and rng.random() < 0.12:
+        # a burst of events a few milliseconds apart whose times carry microseconds (eighths of a millisecond), on an explicit axis
+        # domain with whole-millisecond ends: the dots must sit at the affine image of the time exactly as supplied
+        y = rng.randint(1900, 2190)
+        t0 = to_ms(datetime(y, rng.randint(1, 12), rng.randint(1, 28))) + rng.randint(0, DAY - 1)
+        span = rng.choice([3, 20, 250, 1500])
+        ts = [t0 + rng.randint(0, span * 8) / 8 for _ in range(n)]
+        micro = [t0 - 1, t0 + span + 1]
     if for_crash and rng.random() < 0.15:
         ts = [ts[0]] * n                          # all data at the same time: degenerate domain
     if rng.random() < 0.5:
         rng.shuffle(ts)
     for t in ts:
-        d = {"time": t, "width": rng.choice([50, 30, 20, 80, 12.5, 5, rng.randint(5, 120)])}
+        d = {"time": t, "width": rng.choice([50, 30, 20, 80, 12.5, 5, rng.randint(5, 120)] + ([100 / 3, 37.123456789, 0.1 + 0.2 + 20] if rng.random() < 0.3 else []))}
         if rng.random() < 0.5:
             d["text"] = rng.choice(TEXTS)
         data.append(d)
@@ -79,9 +88,9 @@ def gen_spec(rng, tier="quick", for_crash=False):
     if rng.random() < 0.3:
         o["margin"] = {"left": rng.choice([20, 0, 40, 7]), "right": rng.choice([20, 0, 11]), "top": rng.choice([20, 0, 33]), "bottom": rng.choice([20, 5])}
     if rng.random() < 0.4:
-        o["layerGap"] = rng.choice([60, 1, 10, 25.5, 100])
+        o["layerGap"] = rng.choice([60, 1, 10, 25.5, 100, 6, 3])
     if rng.random() < 0.3:
-        o["labelPadding"] = {"left": rng.choice([2, 0, 5]), "right": rng.choice([2, 0, 4.5]), "top": rng.choice([3, 0, 1]), "bottom": rng.choice([2, 0, 6])}
+        o["labelPadding"] = {"left": rng.choice([2, 0, 5, 8]), "right": rng.choice([2, 0, 4.5, 8]), "top": rng.choice([3, 0, 1, 9]), "bottom": rng.choice([2, 0, 6, 9])}
     if rng.random() < 0.3:
         o["dotRadius"] = rng.choice([3, 1, 5.5])
     lab = {}
@@ -135,6 +144,9 @@ def gen_spec(rng, tier="quick", for_crash=False):
             o["domain"] = [to_ms(datetime(lo.year, lo.month, lo.day)) - DAY, to_ms(datetime(hi.year, hi.month, hi.day)) + 3 * DAY]
         else:
             o["domain"] = [min(ts) - 5000, max(ts) + 86400000]
+    if micro is not None and kind == "datetime":
+        import math
+        o["domain"] = [min(micro[0], math.floor(min(ts))), max(micro[1], math.ceil(max(ts)))]
     opt_mode = "given"
     if for_crash:
         opt_mode = rng.choice(["given", "given", "none", "empty", "omitted"])
